@@ -44,6 +44,9 @@ type frame struct {
 	subst map[types.Object]string // receiver / params -> caller-canonical text
 	id    int
 	hook  func(types.Object) (string, bool)
+	// for inlined calls: the argument expression each parameter stands for, in the caller's frame
+	args   map[types.Object]ast.Expr
+	parent *frame
 }
 
 type marker struct {
@@ -748,7 +751,7 @@ func (m *Matcher) inline(call *Call, c *cont, fr *frame) *cont {
 		return mkCont(m.splice(call, g, "endframe"), 0, c.advance(), cached, true)
 	}
 	m.frameSeq++
-	nfr := &frame{ctx: cc, subst: map[types.Object]string{}, id: m.frameSeq}
+	nfr := &frame{ctx: cc, subst: map[types.Object]string{}, id: m.frameSeq, args: map[types.Object]ast.Expr{}, parent: fr}
 	m.depthOf[nfr] = d
 	m.frames[fkey] = nfr
 	// receiver binding
@@ -761,6 +764,7 @@ func (m *Matcher) inline(call *Call, c *cont, fr *frame) *cont {
 		if i == call.StreamArg || i >= len(cc.Params) || cc.Params[i] == nil {
 			continue
 		}
+		nfr.args[cc.Params[i]] = a
 		if tv, ok := fr.ctx.Info.Types[a]; ok && tv.Value != nil {
 			nfr.subst[cc.Params[i]] = tv.Value.ExactString()
 			continue
@@ -1071,6 +1075,13 @@ func (m *Matcher) completeDecimal(st *state, rp *Prim, rc *cont, w Node) bool {
 	// the length argument must be the bound length byte
 	key := m.readerKey(rfr, rp.LenArg)
 	av, ok := st.e.rbind[key]
+	if os.Getenv("WIRE_DEBUG") != "" && (!ok || !av.decTag) {
+		kp := ""
+		if o, isO := key.(types.Object); isO {
+			kp = m.X.P.Pos(o.Pos())
+		}
+		fmt.Fprintf(os.Stderr, "completeDecimal key=%T %v at %s ok=%v dec=%v av=%+v\n", key, key, kp, ok, av.decTag, av)
+	}
 	if !ok || !av.decTag {
 		m.fail("mismatch", w, rp, nil, rfr, "ReadDecimalLen is not driven by the length byte of a decimal the writer emitted at this position")
 		return false
@@ -1124,6 +1135,10 @@ func (m *Matcher) readerKey(fr *frame, e ast.Expr) interface{} {
 					continue
 				}
 			}
+			// a parameter of an inlined helper stands for the caller's argument
+			if a, ok := fr.args[obj]; ok && fr.parent != nil {
+				return m.readerKey(fr.parent, a)
+			}
 			return obj
 		case *ast.SelectorExpr:
 			// for range this.items, after this.items = make(T, n)
@@ -1137,6 +1152,67 @@ func (m *Matcher) readerKey(fr *frame, e ast.Expr) interface{} {
 		}
 	}
 	return nil
+}
+
+// readerKeySt: like readerKey, but a value obtained from a helper that performs the read itself
+// (count := readCount(din, ver), the helper returning one of several reads) is resolved to the read
+// that was actually bound on this joint path.
+func (m *Matcher) readerKeySt(st state, fr *frame, e ast.Expr, prefer interface{}) interface{} {
+	k := m.readerKey(fr, e)
+	if _, bound := st.e.rbind[k]; bound && k != nil {
+		return k
+	}
+	call, ok := k.(*ast.CallExpr)
+	if obj, isObj := k.(types.Object); isObj {
+		// a local defined by a call of a reading helper
+		if d := fr.ctx.singleDef(obj); d != nil {
+			call, ok = stripConv(fr.ctx, d).(*ast.CallExpr)
+		}
+	}
+	if !ok || call == nil {
+		return k
+	}
+	var id *ast.Ident
+	switch f := ast.Unparen(call.Fun).(type) {
+	case *ast.Ident:
+		id = f
+	case *ast.SelectorExpr:
+		id = f.Sel
+	}
+	if id == nil {
+		return k
+	}
+	fn, _ := fr.ctx.Info.Uses[id].(*types.Func)
+	cfi := m.X.P.FuncOf(fn)
+	if cfi == nil || cfi.Decl.Body == nil {
+		return k
+	}
+	cc := m.X.Ctx(cfi)
+	var found interface{}
+	ast.Inspect(cfi.Decl.Body, func(n ast.Node) bool {
+		rs, ok := n.(*ast.ReturnStmt)
+		if !ok || len(rs.Results) != 1 {
+			return true
+		}
+		var cand interface{}
+		if rc, ok := stripConv(cc, rs.Results[0]).(*ast.CallExpr); ok {
+			cand = rc
+		} else if rid, ok := stripConv(cc, rs.Results[0]).(*ast.Ident); ok {
+			if obj := cc.Info.ObjectOf(rid); obj != nil {
+				cand = obj
+			}
+		}
+		if cand != nil {
+			if _, bound := st.e.rbind[cand]; bound && (found == nil || cand == prefer) {
+				found = cand
+			}
+		}
+		return true
+	})
+	if found != nil {
+		return found
+	}
+	return k
 }
 
 // makeArg: make(T, n) or make(T, n, n) -> n
@@ -1453,11 +1529,15 @@ func (m *Matcher) checkCountLink(st state, wl, rl *Loop, wfr, rfr *frame) {
 	}
 	wk := m.loopKeyW(wfr, wl)
 	var rkey interface{}
+	var prefer interface{}
+	if cv, ok := st.e.wcount[wk]; ok {
+		prefer = cv
+	}
 	switch {
 	case rl.Bound != nil:
-		rkey = m.readerKey(rfr, rl.Bound)
+		rkey = m.readerKeySt(st, rfr, rl.Bound, prefer)
 	case rl.Range != nil:
-		rkey = m.readerKey(rfr, rl.Range)
+		rkey = m.readerKeySt(st, rfr, rl.Range, prefer)
 	}
 	if wk == "" {
 		m.fail("countlink", wl, rl, wfr, rfr, "cannot name the repetition count of the writer's loop")
@@ -1484,6 +1564,9 @@ func (m *Matcher) checkCountLink(st state, wl, rl *Loop, wfr, rfr *frame) {
 		return
 	}
 	if carried != rkey {
+		if os.Getenv("WIRE_DEBUG") != "" {
+			fmt.Fprintf(os.Stderr, "countlink carried=%T %v rkey=%T %v bound=%s\n", carried, carried, rkey, rkey, types.ExprString(rl.Bound))
+		}
 		m.fail("countlink", wl, rl, wfr, rfr, "reader loops over a different count than the one the writer emitted for this repetition (%s)", wk)
 	}
 }
@@ -1519,7 +1602,7 @@ func (m *Matcher) writerLoopZero(st state, wl *Loop, wfr *frame) bool {
 func (m *Matcher) readerLoopZero(st state, rl *Loop, rfr *frame) bool {
 	var rkey interface{}
 	if rl.Bound != nil {
-		rkey = m.readerKey(rfr, rl.Bound)
+		rkey = m.readerKeySt(st, rfr, rl.Bound, nil)
 	}
 	if rkey == nil {
 		return false
@@ -2146,6 +2229,12 @@ func (m *Matcher) resolveTerm(e *env, fr *frame, x ast.Expr, writer bool) (term,
 					return term{key: av.wlabel}, true
 				}
 				return term{bkey: obj}, true
+			}
+			// a parameter of an inlined reader helper: what the caller passed (a value it read)
+			if a, ok := fr.args[obj]; ok && fr.parent != nil && !writer {
+				if t, ok := m.resolveTerm(e, fr.parent, a, writer); ok && (t.bkey != nil || t.isConst) {
+					return t, true
+				}
 			}
 			if s, ok := fr.subst[obj]; ok {
 				var n int64
